@@ -248,6 +248,29 @@ theorem purephase_energy_descan {nr nc : ℕ} (hr : 0 < nr) (hc : 0 < nc)
       rw [hramp _ (hex p hp).1]
       exact rect_mulImg (hex p hp).1 hT
 
+/-- **absorbing_energy_le** (beyond the property text: the general multislice energy bound): for an
+absorbing object — every slice patch has modulus AT MOST one, as the clamped amplitude of
+`obj_type = "complex"` guarantees — the summed predicted diffraction intensity never exceeds the
+total probe intensity, for any number of slices and modes.  `purephase_energy` is the equality case. -/
+theorem absorbing_energy_le {nr nc : ℕ} (hr : 0 < nr) (hc : 0 < nc)
+    (patches props probes : List (Img ℝ))
+    (hpatch : ∀ O ∈ patches, Rect nr nc O ∧ SubUnit O)
+    (hprops : ∀ P ∈ props, Rect nr nc P ∧ UnitModulus P)
+    (hprobes : ∀ p ∈ probes, Rect nr nc p) :
+    rsum (detector (overlapProjection patches props probes).2) ≤ (probes.map energy).sum := by
+  have hex : ∀ p ∈ probes, Rect nr nc (overlapProjection1 patches props p).2
+      ∧ energy (overlapProjection1 patches props p).2 ≤ energy p :=
+    fun p hp => overlapProjection1_energy_le hr hc patches props p (hprobes p hp) hpatch hprops
+  simp only [overlapProjection, List.map_map]
+  rw [rsum_detector hr hc]
+  · rw [List.map_map]
+    apply List.sum_le_sum
+    intro p hp
+    exact (hex p hp).2
+  · intro w hw
+    obtain ⟨p, hp, rfl⟩ := List.mem_map.1 hw
+    exact (hex p hp).1
+
 /-- the model's own propagator arrays satisfy the hypothesis of `purephase_energy` -/
 theorem propagatorArrays_ok (nr nc : ℕ) (sr sc e thr thc : ℝ) (n : ℕ) (dzs : List ℝ) :
     ∀ P ∈ propagatorArrays nr nc sr sc e thr thc n dzs, Rect nr nc P ∧ UnitModulus P := by
